@@ -10,6 +10,7 @@ package secp256k1
 
 import (
 	"crypto"
+	_ "crypto/sha256" // register SHA-256 with the crypto registry, so that crypto.SHA256.New() works in every program.
 	"encoding/binary"
 	"errors"
 	"hash"
